@@ -2,19 +2,20 @@
 Path enumerations of `Market._add_order` (see SrcAddDefs.lean): `nf%` computes the pruned paths of the
 symbolic run of the *current* translated source, `rfl` makes the kernel re-check them.
 -/
+import PamsLemmas.EvalNf
 import PamsLemmas.SrcAddDefs
 
 namespace Pams.Src
 open Pams Pams.Py
 set_option maxRecDepth 1000000
 
-theorem addP_ttff : addPaths true true false false 0 .none false false = nf% (addPaths true true false false 0 .none false false) := by rfl
-theorem addP_ttft : addPaths true true false false 0 .none true false = nf% (addPaths true true false false 0 .none true false) := by rfl
-theorem addP_tttf : addPaths true true true false 0 .none false false = nf% (addPaths true true true false 0 .none false false) := by rfl
-theorem addP_tttt : addPaths true true true false 0 .none true false = nf% (addPaths true true true false 0 .none true false) := by rfl
-theorem addP_tfff : addPaths true false false false 0 .none false false = nf% (addPaths true false false false 0 .none false false) := by rfl
-theorem addP_tfft : addPaths true false false false 0 .none true false = nf% (addPaths true false false false 0 .none true false) := by rfl
-theorem addP_tftf : addPaths true false true false 0 .none false false = nf% (addPaths true false true false 0 .none false false) := by rfl
-theorem addP_tftt : addPaths true false true false 0 .none true false = nf% (addPaths true false true false 0 .none true false) := by rfl
+theorem addP_ttff : addPaths true true false false 0 .none false false = evalnf% (addPaths true true false false 0 .none false false) := by kernel_rfl
+theorem addP_ttft : addPaths true true false false 0 .none true false = evalnf% (addPaths true true false false 0 .none true false) := by kernel_rfl
+theorem addP_tttf : addPaths true true true false 0 .none false false = evalnf% (addPaths true true true false 0 .none false false) := by kernel_rfl
+theorem addP_tttt : addPaths true true true false 0 .none true false = evalnf% (addPaths true true true false 0 .none true false) := by kernel_rfl
+theorem addP_tfff : addPaths true false false false 0 .none false false = evalnf% (addPaths true false false false 0 .none false false) := by kernel_rfl
+theorem addP_tfft : addPaths true false false false 0 .none true false = evalnf% (addPaths true false false false 0 .none true false) := by kernel_rfl
+theorem addP_tftf : addPaths true false true false 0 .none false false = evalnf% (addPaths true false true false 0 .none false false) := by kernel_rfl
+theorem addP_tftt : addPaths true false true false 0 .none true false = evalnf% (addPaths true false true false 0 .none true false) := by kernel_rfl
 
 end Pams.Src
